@@ -42,6 +42,24 @@ ASSUMPTIONS = [
     "materialize() mutates and returns its receiver; it is modelled as an in-place update of the store entry",
     "asserts are enabled (python is not run with -O)",
     "float slice bounds and ratios are finite doubles; lengths are far below 2^53",
+    "OUTSIDE the quantifier (documented limitation, not generated): uint8 tensors as an index.  torch treats a uint8 "
+    "tensor as a (deprecated) byte mask while df.iloc reads it as positions, so d[torch.tensor([1,0,1,0,1], "
+    "dtype=torch.uint8)] de-aligns DataFrame and TensorFrame; the property's 'tensor' means an integer index tensor "
+    "or a boolean mask, which is what the generator draws (torch.long / torch.bool)",
+    "'derived datasets never alter the dataset they came from' is true of the purely functional Coq model by "
+    "construction (no aliasing is represented); for the real objects it is OBSERVED: every existing dataset is "
+    "snapshotted (index labels, every DataFrame id column, split values, columns, col_to_stype keys, target_col, "
+    "split_col, is_materialized, len, every TensorFrame column and y, col_stats keys) before and after EVERY "
+    "operation of every history.  One exception is tallied, not reported: materialize() of a dataset adds keys to "
+    "the col_stats of its col_select relatives (copy.copy shares the _col_stats dict) - a source altering a "
+    "derived dataset, which the property does not speak about (input_distribution.col_stats_aliasing_seen)",
+    "that the DataFrame's index labels are never consulted holds of the model by construction (no model function "
+    "reads a label); for the code it is observed under eight label kinds",
+    "numpy's arrangement depends on (seed, length) only: carried by the type of np_perm in Model/Split.v, i.e. an "
+    "assumption next to H_shuffle_perm, validated on every generator point",
+    "materialize() is modelled as succeeding unless a col_to_stype column names two frame columns (repeated name in "
+    "col_select); other materialization failures are C01's subject.  col_select appending the target to the "
+    "CALLER's list is not modelled (the harness passes fresh lists)",
 ]
 
 SPLIT_NUM = {"train": 0, "val": 1, "test": 2}     # the property statement's own constants
@@ -151,7 +169,9 @@ def ref_apply(st, step, perm=None):
             return [("err", "unknown column")]
         if st["target"] is not None and st["target"] not in cols:
             cols = cols + [st["target"]]
-        return [("node", dict(st, cols=cols, dfcols=list(cols), has_split=False))]
+        keys = [c for i, c in enumerate(cols) if c not in cols[:i]]      # a dict keeps a repeated name once
+        return [("node", dict(st, cols=keys, dfcols=list(cols), has_split=False,
+                              dup=st.get("dup", False) or len(keys) != len(cols)))]
     raise ValueError(o)
 
 
@@ -223,6 +243,8 @@ def gen_col_select(rng, st, p):
         rng.shuffle(cols)
         if st["target"] and rng.chance(0.4):
             cols.insert(rng.randint(0, len(cols)), st["target"])
+    if rng.chance(0.12) and cols[0] in st["cols"]:
+        cols.insert(rng.randint(0, len(cols)), rng.pick(cols))      # a repeated name
     via = rng.pick(["method", "getitem"]) if len(cols) != 1 else rng.pick(["method", "getitem", "getitem_str", "method_str"])
     return {"o": "col_select", "p": p, "via": via, "cols": cols}
 
@@ -243,8 +265,8 @@ def gen_hist(rng, tier):
         o = step["o"]
         par = ref[step["p"]] if step["p"] < len(ref) else None
         if o == "mat":
-            if par is not None:
-                par["mat"] = True
+            if par is not None and not par.get("dup"):
+                par["mat"] = True       # (with a repeated column name materialize raises)
             return
         if o in ("read_tf", "read_stats"):
             return
@@ -263,7 +285,7 @@ def gen_hist(rng, tier):
             if r < 0.45:
                 st = gen_col_select(rng, ref[cur], cur)
                 push(st)
-                if ref[-1] is not None and rng.chance(0.8):
+                if ref[-1] is not None and not ref[-1].get("dup") and rng.chance(0.8):
                     cur = len(ref) - 1
             elif r < 0.6:
                 push({"o": "read_tf", "p": cur})
@@ -413,7 +435,7 @@ def _ids(vals, off):
     return out
 
 
-def read_tf_ids(tf):
+def read_tf_ids(tf, into=None):
     """row ids carried by every column of a TensorFrame (+ y); (ids, problem)"""
     import torch_frame
     cands = []
@@ -431,6 +453,8 @@ def read_tf_ids(tf):
             prob = f"TensorFrame columns disagree on row identity: {cands[0][0]}={ids} {nm}={v}"
     if ids is not None and tf.num_rows != len(ids):
         prob = f"TensorFrame.num_rows={tf.num_rows} but columns have {len(ids)} rows"
+    if into is not None:
+        into["tf_all"] = [[nm, v] for nm, v in cands]       # every cell of the TensorFrame, by column
     return ids, names, prob
 
 
@@ -439,10 +463,11 @@ def snapshot(d):
     cols = [str(c) for c in df.columns]
     s = {"labels": [x if isinstance(x, str) else int(x) for x in df.index.tolist()], "cols": cols,
          "stypes": [str(c) for c in d.col_to_stype.keys()], "mat": bool(d.is_materialized),
-         "target": d.target_col, "rid": None, "split": None, "tf": None, "prob": None}
-    for c, off in ID_COLS.items():
-        if cols.count(c) == 1:
-            v = _ids(df[c].tolist(), off)
+         "target": d.target_col, "split_col": d.split_col, "len": len(d), "num_rows": int(d.num_rows),
+         "rid": None, "split": None, "tf": None, "tf_all": None, "stat_cols": None, "prob": None}
+    for j, c in enumerate(cols):            # by position: a column name may be repeated
+        if c in ID_COLS:
+            v = _ids(df.iloc[:, j].tolist(), ID_COLS[c])
             if s["rid"] is None:
                 s["rid"] = v
             elif s["rid"] != v:
@@ -452,10 +477,11 @@ def snapshot(d):
     if len(d) != len(s["labels"]):
         s["prob"] = f"len(dataset)={len(d)} but the frame has {len(s['labels'])} rows"
     if s["mat"]:
-        ids, names, prob = read_tf_ids(d.tensor_frame)
+        ids, names, prob = read_tf_ids(d.tensor_frame, s)
         s["tf"], s["tf_cols"] = ids, names
         if prob:
             s["prob"] = prob
+        s["stat_cols"] = sorted(str(c) for c in d.col_stats.keys())
     return s
 
 
@@ -525,7 +551,7 @@ def run(case):
             rec = {"ok": False, "exc": C.exc_name(ex), "msg": str(ex)[:200]}
             new = [None] * k
         # every dataset that existed before must be unchanged (materialize changes its receiver only)
-        changed = []
+        changed, aliased = [], []
         for i, (nd, sn) in enumerate(zip(nodes, snaps)):
             if nd is None:
                 continue
@@ -533,11 +559,19 @@ def run(case):
             if now != sn:
                 if o == "mat" and i == p and rec["ok"]:
                     snaps[i] = now
-                    if any(now[f] != sn[f] for f in ("labels", "rid", "split", "cols", "stypes", "target")):
+                    if any(now[f] != sn[f] for f in ("labels", "rid", "split", "cols", "stypes", "target",
+                                                      "split_col", "len", "num_rows")):
                         changed.append(i)
+                elif o == "mat" and all(now[f] == sn[f] for f in now if f != "stat_cols"):
+                    # materialize(p) added keys to the col_stats dict a col_select relative shares with p:
+                    # a source altering a derived dataset; tallied, not part of the property
+                    aliased.append(i)
+                    snaps[i] = now
                 else:
                     changed.append(i)
         rec["changed"] = changed
+        if aliased:
+            rec["stats_aliased"] = aliased
         if o == "mat" and rec["ok"]:
             rec["nodes"] = [snaps[p]]
         elif rec["ok"] and k:
@@ -634,6 +668,10 @@ def oracle(case, obs):
             return dict(key=f"source-modified:{kind}",
                         what=f"step {idx} {kind} on dataset #{p} altered existing dataset(s) #{g['changed']}")
         if o == "mat":
+            if par.get("dup") and not par["mat"]:
+                if g["ok"]:
+                    par["mat"] = True
+                continue                # a frame with a repeated column name: outside the property
             if not g["ok"]:
                 return dict(key="raises:mat", what=f"step {idx}: materialize raised {g.get('exc')}: {g.get('msg')}")
             par["mat"] = True
@@ -826,7 +864,8 @@ def nontrivial_sig(case, obs):
 def stats(cases, obss):
     d = {"hist": 0, "gen": 0, "ops": {}, "label_kinds": {}, "n_rows": {}, "prog_len": {}, "steps_raising": 0,
          "steps_total": 0, "cases_with_empty_result": 0, "cases_with_empty_split": 0, "tree_shaped": 0,
-         "with_pre_phase": 0, "gen_rejected": 0, "gen_no_test": 0, "gen_floor_differs_from_exact": 0}   # gen* count split-generator points
+         "with_pre_phase": 0, "gen_rejected": 0, "gen_no_test": 0, "gen_floor_differs_from_exact": 0,
+         "col_stats_aliasing_seen": 0, "repeated_column_requests": 0, "float_cut_differs_from_int": 0}   # gen* count split-generator points
     for c, o in zip(cases, obss):
         if c is None or o is None:
             continue
@@ -854,6 +893,17 @@ def stats(cases, obss):
             k = step_kind(st)
             d["ops"][k] = d["ops"].get(k, 0) + 1
             d["steps_total"] += 1
+            if g.get("stats_aliased"):
+                d["col_stats_aliasing_seen"] += 1
+            if st["o"] == "col_select" and len(set(st["cols"])) != len(st["cols"]):
+                d["repeated_column_requests"] += 1
+            if st["o"] == "fslice":
+                for b in (st["a"], st["b"]):
+                    v = bound_py(b)
+                    if isinstance(v, float) and math.isfinite(v) and any(
+                            ref_round(v * float(m)) != int(v * float(m)) for m in range(0, 13)):
+                        d["float_cut_differs_from_int"] += 1
+                        break
             if not g.get("skipped") and not g["ok"]:
                 d["steps_raising"] += 1
             cnt = 3 if st["o"] == "split" else (1 if st["o"] in DERIVING else 0)
@@ -866,6 +916,41 @@ def stats(cases, obss):
         d["tree_shaped"] += tree
         d["cases_with_empty_result"] += empty
     return d
+
+
+def sanity(cases, obss):
+    """Fail-closed distribution check: a degenerate run must not report green."""
+    d = stats(cases, obss)
+    probs = []
+    if d["hist"] == 0 or d["gen"] == 0:
+        return [f"histories={d['hist']} generator points={d['gen']}"]
+    for k in ("mat", "sel(int)", "sel(slice)", "sel(list)", "sel(range)", "sel(tensor)", "sel(mask)", "fslice",
+              "shuffle", "get_split", "split", "read_tf", "read_stats"):
+        if d["ops"].get(k, 0) == 0:
+            probs.append(f"operation {k} never drawn")
+    if not any(k.startswith("col_select") for k in d["ops"]):
+        probs.append("col_select never drawn")
+    for k in ("range", "offset", "permuted", "string", "dup_int", "dup_str", "sparse", "negative"):
+        if d["label_kinds"].get(k, 0) == 0:
+            probs.append(f"label kind {k} never drawn")
+    if d["steps_raising"] > 0.5 * d["steps_total"]:
+        probs.append(f"{d['steps_raising']} of {d['steps_total']} steps raise")
+    if d["steps_raising"] == 0:
+        probs.append("no illegal order / malformed index was drawn")
+    for k, what in (("tree_shaped", "no tree-shaped history"), ("with_pre_phase", "no pre-materialization phase"),
+                    ("cases_with_empty_result", "no history passes through an empty dataset"),
+                    ("cases_with_empty_split", "no dataset with an empty split"),
+                    ("float_cut_differs_from_int", "no fractional bound where round() and int() differ"),
+                    ("gen_floor_differs_from_exact", "no (n, ratio) where the double product's floor differs from "
+                                                     "the exact one"),
+                    ("gen_no_test", "include_test=False never drawn")):
+        if d[k] == 0:
+            probs.append(what)
+    if not (0.05 * d["gen"] <= d["gen_rejected"] <= 0.6 * d["gen"]):
+        probs.append(f"{d['gen_rejected']} of {d['gen']} generator points rejected")
+    if 0 not in d["n_rows"] or max(d["n_rows"]) < 8:
+        probs.append("row counts do not span 0..8+")
+    return probs
 
 
 # =========================================================================== Coq side
